@@ -1,11 +1,13 @@
 use crate::report::Tier;
 
 pub mod c08;
+pub mod c09;
 pub mod c14;
 
 pub fn dispatch(prop: &str, tier: Tier, replay: Option<String>) -> i32 {
     match prop {
         "C08" => c08::run(tier, replay),
+        "C09" => c09::run(tier, replay),
         "C14" => c14::run(tier, replay),
         _ => {
             eprintln!("MACHINERY: unknown or unsupported property {} in this build", prop);
